@@ -93,6 +93,7 @@ def run_case(case, obs=None):
     cdb = bytes(cmd.cdb)
     if obs is not None:
         obs.append(cdb)
+        obs.append(cmd)
     exp = CS.expected_fields(name, point)
     for f in c["computed"]:
         try:
@@ -136,6 +137,7 @@ def run_partition(part, tier, seed):
         acc.add("tables_not_offering", 1)
         # still one evaluation so the partition is visible
         return acc
+    prev = None
     if wide:
         pts = ((p, r) for p, r in CS.points(name, min(b["k"], 2), 1 << 64) if any(
             S.CLASSES[name]["args"].get(a) in S.ALLOCATING and v > b["maxbuf"] // (3072 if name == "ReadCd" else 1) for a, v in p.items()))
@@ -146,7 +148,12 @@ def run_partition(part, tier, seed):
         acc.case(case, nontrivial=r > 0, key=(name, st, key, wide, tuple(sorted(point.items()))))
         obs = []
         v = run_case(case, obs)
+        # the command built just before must still carry its own CDB (no scratch buffer shared between commands)
+        if prev is not None and bytes(prev[0].cdb) != prev[1]:
+            v.append(("earlier_command_changed/%s" % name, "%s(%r): building it changed the CDB of the %s built before it (%s -> %s)"
+                      % (name, point, name, prev[1].hex(), bytes(prev[0].cdb).hex())))
+        prev = (obs[1], obs[0]) if len(obs) > 1 else None
         for k, what in v:
             acc.violation(k, what, case)
-        acc.outcome((name, tuple(obs), tuple(k for k, _ in v)))
+        acc.outcome((name, obs[0] if obs else None, tuple(k for k, _ in v)))
     return acc
